@@ -4,7 +4,7 @@ Copies a verified seeded change from /tmp/mutout/<PROP>/ into /verif/seeded/<PRO
 import argparse, json, os, shutil, sys
 ap = argparse.ArgumentParser()
 ap.add_argument("prop"); ap.add_argument("i"); ap.add_argument("needs")
-ap.add_argument("--caught", default=""); ap.add_argument("--missed", default=""); ap.add_argument("--evals", default="")
+ap.add_argument("--caught", default=""); ap.add_argument("--missed", default=""); ap.add_argument("--evals", default=""); ap.add_argument("--history", default="")
 a = ap.parse_args()
 src = "/tmp/mutout/%s" % a.prop
 dst = os.path.join(os.path.dirname(os.path.dirname(os.path.abspath(__file__))), "seeded", "%s-%s" % (a.prop, a.i))
@@ -15,17 +15,18 @@ shutil.copy("%s/%sdemo%s.py" % (src, pre, a.i), dst + "/demo.py")
 if os.path.exists("%s/%snotes%s.md" % (src, pre, a.i)):
     shutil.copy("%s/%snotes%s.md" % (src, pre, a.i), dst + "/notes.md")
 ran = {}
-for f in [x for x in a.evals.split(",") if x] or ["%s/eval%s.json" % (src, a.i)]:
+for f in ["%s/eval%s.json" % (src, a.i), "%s/eval%sb.json" % (src, a.i)] + [x for x in a.evals.split(",") if x]:
     if os.path.exists(f):
         d = json.load(open(f))
-        ran.setdefault("demo_on_clean_tree_exit", d.get("demo_clean_exit"))
-        ran.setdefault("baseline_339_pass_with_change", d.get("baseline_ok"))
-        ran.setdefault("demo_with_change_exit", d.get("demo_mutant_exit"))
+        for k, v in (("demo_on_clean_tree_exit", d.get("demo_clean_exit")), ("baseline_339_pass_with_change", d.get("baseline_ok")),
+                     ("demo_with_change_exit", d.get("demo_mutant_exit"))):
+            if v is not None:
+                ran[k] = v
         for k, v in d.get("checks", {}).items():
             ran.setdefault("checks", {})[k] = {"exit": v["exit"], "signatures": v["signatures"][:3], "wall_s": v["wall_s"]}
 meta = {"property": a.prop, "needs": a.needs, "origin": "sub-agent given only the property text and a scratch worktree (task: /tmp/mutout/%s/task.md)" % a.prop,
         "what_i_ran": {"tool": "tools/eval_seeded.py (scratch worktree outside /repo and /verif; demo on clean tree; git apply / patch; baseline; demo; quick check with VERIF_REPO)",
                        "results": ran},
-        "caught_by": [c for c in a.caught.split(",") if c], "missed_reason": a.missed}
+        "caught_by": [c for c in a.caught.split(",") if c], "missed_reason": a.missed, "history": a.history}
 json.dump(meta, open(dst + "/meta.json", "w"), indent=1)
 print(dst)
